@@ -153,7 +153,7 @@ CLAIMED = {
          'the real code: bindings sit on the intended Python objects, and config_str() parsed back gives the same per-object bindings.',
          BASE + 'Partial: the object graph is extracted from the real package by introspection; __import__/getattr are CPython\'s; '
          'reference re-initialisation after re-registration and the ImportManager\'s re-aliasing are covered by the round-trip oracle only, '
-         'not by theorems; every generated file enables dynamic registration. D19 is a recorded finding.'),
+         'not by theorems; every generated file enables dynamic registration. D19 was found by this check and repaired (fix: a0ac27e).'),
 }
 REASON_PENDING = 'check not built yet in this round; planned with the same technique (DESIGN.md §6, §9) - nothing is claimed until the check exists'
 
